@@ -96,7 +96,7 @@ var c06Values = [dNumDims][]string{
 	dVer: {"v2", "v1-absent", "v3"},
 	dN:   {"3", "0", "1", "2", "30", "0-present-empty", "800000"}, // the last one (a list of more than 16 MiB: four length octets) is not part of the core product
 	dNU:  {"present", "absent"},
-	dExt: {"aki+number", "absent", "number", "aki+number-9-octets", "aki+number-20-octets", "aki+number+unknown-noncritical", "aki+number+unknown-critical", "aki+number+delta-critical", "aki+number+idp-critical", "aki+number+ian-critical", "aki+number+freshest-critical", "aki+number+aia-critical",
+	dExt: {"aki+number", "absent", "number", "aki+number-9-octets", "aki+number-20-octets", "aki+number-0", "aki+number+unknown-noncritical", "aki+number+unknown-critical", "aki+number+delta-critical", "aki+number+idp-critical", "aki+number+ian-critical", "aki+number+freshest-critical", "aki+number+aia-critical",
 		// where an unsupported critical extension stands among supported critical ones must not matter
 		"aki-only",
 		"critical-number+critical-aki+delta-critical", "delta-critical+critical-number+critical-aki", "critical-number+idp-critical+critical-aki", "critical-aki+critical-number"},
@@ -329,6 +329,9 @@ func (c c06Case) build() (doc []byte, der []byte, wellFormed bool, mustReject bo
 		s.Exts = []pkix.Extension{world.CRLNumberExt(300)}
 	case "aki-only":
 		s.Exts = []pkix.Extension{aki}
+	case "aki+number-0":
+		// zero is a CRL number like any other (the first list of a fresh issuer), not "no number"
+		s.Exts = []pkix.Extension{aki, world.CRLNumberExt(0)}
 	case "aki+number-9-octets":
 		s.Exts = []pkix.Extension{aki, world.CRLNumberBigExt(new(big.Int).Lsh(big.NewInt(0x81), 64))}
 	case "aki+number-20-octets":
